@@ -1,4 +1,5 @@
 import Enc.Model.Thrift
+import Enc.Model.ThriftAlloc
 import Enc.Spec.Thrift
 import Enc.Spec.Protobuf
 /-! line-protocol handlers, area `thrift`. -/
@@ -103,8 +104,39 @@ def classes (p : Model.Thrift.Proto) (ty : Ty) (v : Val) : List String :=
   ++ (if hasNegZero ty v then ["thriftNegZeroDropped"] else [])
   ++ (if nilInColl ty v then ["thriftNilPtrInCollection"] else [])
 
+/-- the nominal linear bound the harness compares the measured allocation with (`thrift.alloc`, `thrift.allocm`) -/
+def allocBound (ty : Ty) (len : Nat) : Nat := len * 64 * (sizeOfTy ty + 64) + 65536
+/-- slack of the correspondence measured ↔ model, both directions (error values, decoder bookkeeping, map buckets) -/
+def allocC0 : Nat := 16384
+
 def handle (op : String) (args : List String) : Option (String × String × String) :=
   match op, args with
+  -- thrift.allocm <proto> <type> <hex> <measured>: the allocation clause of C08 on the real code against the model's count
+  -- of the wire-sized allocation sites (Enc/Model/ThriftAlloc.lean). M = the verdict the harness computes from the measured
+  -- number, PROVIDED the measured number and the model's count agree (`model ≤ 1.5·meas + c0` and `meas ≤ 4·model + 8320·len + c0`),
+  -- else the disagreement. The model counts the wire-sized sites only; what it leaves out is linear in the input with a LARGE
+  -- factor: every struct decoded allocates its `seen` bitmap, 8·((maxID−minID+1)/64+1) bytes — up to 8 KiB for a type whose
+  -- field ids span the int16 range — and an empty struct is ONE input byte (observed: 4126 bytes per element). The known class is decided by the MODEL: it
+  -- is attached exactly when the model's own count exceeds the linear bound.
+  | "thrift.allocm", [pn, ty, h, meas] => do
+    let (p, _) ← protoOf pn
+    let ty ← Ty.parse ty
+    let b ← fromHex h
+    let meas ← meas.toNat?
+    let a := (Model.Thrift.unmarshalA p false ty b).2
+    let bound := allocBound ty b.length
+    let pre := s!"sz={sizeOfTy ty};"
+    let verdict :=
+      if 2 * a > 3 * meas + 2 * allocC0 then s!"model={a}>1.5*meas={meas}+{allocC0}"
+      else if meas > 4 * a + 8320 * b.length + allocC0 then s!"meas={meas}>4*model={a}+8320*{b.length}+{allocC0}"
+      else if meas ≤ bound then "ok" else s!"alloc={meas}>bound={bound}"
+    pure (pre ++ verdict, "-", if a > bound then "thriftWireSizeAlloc" else "")
+  | "thrift.allocnum", [pn, ty, h] => do
+    let (p, _) ← protoOf pn
+    let ty ← Ty.parse ty
+    let b ← fromHex h
+    let r := Model.Thrift.unmarshalA p false ty b
+    pure (s!"alloc={r.2};" ++ showRes ty r.1, "-", "")
   | "thrift.marshal", [p, ty, v] => do
     let (mp, sp) ← protoOf p
     let ty ← Ty.parse ty
